@@ -61,6 +61,9 @@ pub struct SearchPath {
     pub root: bool,
     pub line: u32,
     pub path: NodePath,
+    // where each step of the path is written (note and line): tells apart two paths that read
+    // the same, without looking at node ids, which depend on the order of edits
+    pub origin: Vec<(Key, u32)>,
 }
 
 pub trait Reader {
@@ -84,13 +87,23 @@ impl Graph {
                 root: path.ids().len() == 1,
                 line: self.node_line_number(path.target()).unwrap_or(0) as u32,
                 path: path.clone(),
+                origin: path
+                    .ids()
+                    .iter()
+                    .map(|id| {
+                        (
+                            self.node_key(*id),
+                            self.node_line_number(*id).unwrap_or(0) as u32,
+                        )
+                    })
+                    .collect(),
             })
             .collect::<Vec<_>>()
             .into_iter()
             .sorted_by(|a, b| {
                 let primary = b.node_rank.cmp(&a.node_rank);
                 if primary == Ordering::Equal {
-                    a.key.cmp(&b.key)
+                    a.key.cmp(&b.key).then_with(|| a.origin.cmp(&b.origin))
                 } else {
                     primary
                 }
